@@ -20,7 +20,7 @@ CHECKS = {
          "NoOverwriteVisible is an invariant of the page-level model for all interleavings; on the real code every WriteAt (offset, length) is intercepted and TLC checks that its page range lies in pages allocated by the writing transaction, outside every visible version (page sets cross-checked against an independent decode of the file), and that meta writes go to the slot not holding the newest committed meta.",
          "§4 C06", TB + "; the independent decoder"),
  "C07": ("model_checking", "TLC model check (Bolt Partition invariant) + TLC trace validation (TraceBolt) of decoder observations after every transaction",
-         "Partition is an invariant of the page-level model (also after rollback, failed commit, recovery). On the real code the file is decoded independently after every write transaction and every open; TLC compares reachable pages, freelist page and content, free/pending sets, statistics and Tx.Check with the specification's sets and evaluates the partition predicate.",
+         "Partition is an invariant of the page-level model (also after rollback, failed commit, recovery). On the real code the file is decoded independently after every write transaction and every open; TLC compares reachable pages, freelist page and content, free/pending sets, statistics (DB.Stats as a function of the trace) and Tx.Check with the specification's sets and evaluates the partition predicate. The shape of every committed tree (BTree.tla: elements inside their page, balanced, no empty non-root leaf, branches with >= 2 children, inline buckets) is evaluated by TLC on the decoder's per-page facts, and Bucket.Stats() of every top-level bucket must equal BTree!StatsOf of the same facts.",
          "§4 C07", TB + "; the independent decoder"),
  "C08": ("fault_enumeration", "exhaustive single-fault enumeration over every I/O call of generated workloads, each run validated by TLC (TraceKV + TraceBolt); TLC model check of Bolt MC_Fault",
          "For every workload, every I/O call it issues (write, sync, truncate, file sync, mmap) is failed once (every third write as a short write), with and without readers held across the failure; TLC validates each run's API trace against TxKV (nothing visible, or for a failed final sync entirely present/absent; readers keep their snapshot; later transactions proceed) and its page-level trace against TraceBolt (free list after rollback, partition, nothing visible becomes free). MC_Fault checks the same on the model for all interleavings.",
